@@ -453,7 +453,7 @@ def known_witness_cases():
 
 
 def gen_cases(rng, tier):
-    n = 100 if tier == "quick" else 3000
+    n = 80 if tier == "quick" else 3000
     cases = fixed_cases()
     seen = set()
     while len(cases) < n:
